@@ -225,7 +225,7 @@ theorem at_most_once_block2_partial (single : Bool) (cap : Nat) (junk : UInt8) (
     (res.2.isFinal = true → ∀ k, k < nBlocks body.length szx → k = num ∨ Covers (effRecv st) k) := by
   intro res
   have h := crcvStep_spec single cap junk body sz st r num szx res.1 res.2 hsz hst hg rfl
-  exact ⟨fun s' hs hi => (h.inv s' hs hi).1, fun d l hb => (h.dBody d l hb).2.2.2,
+  exact ⟨fun s' hs hi => h.inv s' hs hi, fun d l hb => (h.dBody d l hb).2.2.2,
     fun off p total nx hb => (h.dBlock off p total nx hb).2.2.2.1,
     fun off p total hb => ⟨(h.dLast off p total hb).2.2.2.1, (h.dLast off p total hb).2.2.2.2⟩,
     h.grow, h.complete⟩
